@@ -334,6 +334,9 @@ func (s *Server[StateT]) handleWriteFile(ctx *Context[StateT]) error {
 		if _, drainErr := io.Copy(io.Discard, data); drainErr != nil {
 			return fmt.Errorf("drain file data failed: %w", drainErr)
 		}
+		if limited.N > 0 {
+			return fmt.Errorf("file data truncated: %d bytes missing", limited.N)
+		}
 
 		return ctx.wr.SendWriteFileError()
 	}
@@ -343,6 +346,11 @@ func (s *Server[StateT]) handleWriteFile(ctx *Context[StateT]) error {
 	// consume what is left of it so that the next command is read from the right place
 	if _, drainErr := io.Copy(io.Discard, data); drainErr != nil {
 		return fmt.Errorf("drain file data failed: %w", drainErr)
+	}
+
+	// connection ended inside of announced payload: it's a truncated request, there is nobody to answer
+	if limited, ok := data.(*io.LimitedReader); ok && limited.N > 0 {
+		return fmt.Errorf("file data truncated: %d bytes missing", limited.N)
 	}
 
 	if err != nil {
